@@ -375,6 +375,35 @@ func c17Cases(tier string) []c11Case {
 	for _, f := range [][2][]string{{nil, nil}, {{"p1"}, nil}, {nil, {"p"}}, {{"*/a"}, nil}, {nil, {"p1/a"}}, {{"r", "p1/z"}, nil}} {
 		out = append(out, c11Case{Tree: c11MultiTree(), Include: f[0], Exclude: f[1], Under: "multi"})
 	}
+	// a deeper tree: a directory selected through "**" or by a middle component, files with content several levels below
+	// it (the header of a member announces bytes that Open must then deliver)
+	{
+		T := fsmodel.T0
+		f := func(p string, seed int) fsmodel.Node {
+			return fsmodel.Node{Path: p, Kind: fsmodel.File, Perm: 0644, Mtime: T + int64(seed), Data: fsmodel.Content(seed, 5+seed%7)}
+		}
+		dd := func(p string) fsmodel.Node { return fsmodel.Node{Path: p, Kind: fsmodel.Dir, Perm: 0755, Mtime: T} }
+		deep := fsmodel.Tree{dd("a"), dd("a/d"), dd("a/d/v"), f("a/d/v/f", 70), f("a/d/v/g", 71), dd("a/d/v/w"), f("a/d/v/w/h", 72), f("c", 73), dd("v"), f("v/top", 74), dd("v/s"), f("v/s/u", 75)}
+		deep.Sort()
+		pats := []string{"**/v", "a/d", "**/d", "*/d/v", "!a/d/v/g", "a", "**/w", "v", "**/s"}
+		for _, in := range patternLists(2, pats) {
+			for _, ex := range patternLists(1, pats) {
+				if tier != "thorough" && len(in)+len(ex) > 2 {
+					continue
+				}
+				for _, under := range []string{"disk", "mem"} {
+					out = append(out, c11Case{Tree: deep, Include: in, Exclude: ex, Under: under})
+				}
+			}
+		}
+		// names that begin with two dots, at the top and below it; names with pattern metacharacters
+		dots := fsmodel.Tree{dd("..2024_05_01"), f("..2024_05_01/token", 76), {Path: "..data", Kind: fsmodel.Symlink, Perm: 0777, Mtime: T, Link: "..2024_05_01"}, f("..gitkeep.bak", 77),
+			dd("z"), f("z/..x", 78), dd("z/..y"), f("z/..y/w", 79), f("a[1]*", 80), dd("b?"), f("b?/c", 81)}
+		dots.Sort()
+		for _, under := range []string{"disk", "mem", "subdir", "filter"} {
+			out = append(out, c11Case{Tree: dots, Under: under}, c11Case{Tree: dots, Under: under, Exclude: []string{"z"}}, c11Case{Tree: dots, Under: under, Include: []string{"..*"}})
+		}
+	}
 	// hard-link groups of special files and of symlinks
 	for _, lab := range fsmodel.Partitions(4) {
 		for _, kind := range []fsmodel.Kind{fsmodel.Fifo, fsmodel.Symlink} {
